@@ -15,7 +15,9 @@ RULE = ("constructed pairs (recorded program P, replayed program P'): P is a fau
         "and for outputs fail-flag x default x present/absent/handler failing on what the replayed code sends; absent calls that "
         "differ from a recorded call of the same input only in the TYPE of an argument (1 / True / 1.0, tuple / list, bytes / str, "
         "two classes with equal attributes; positional and keyword; both directions; absent twin before the recorded call) - each replayed "
-        "with recording enabled and disabled and one to three times; plus random program pairs; non-trivial = every case; "
+        "with recording enabled and disabled and one to three times; an opted-in original (run-original AND a substitute {5, 0, '', [], "
+        "callable, none}) whose body makes a further intercepted call that is absent and has no policy (nested input / second call "
+        "of an output / input after a present one): the outer call ends in that missing-key error; plus random program pairs; non-trivial = every case; "
         "distinct = distinct (P, P', options); plus (implementation only) replays started from INSIDE an operation that is being "
         "recorded on the same recorder (recording mode and playback mode at once): constructed and random (P, P') x endpoint "
         "input before / output after x three cassettes")
@@ -164,6 +166,28 @@ def extra_cases():
         probe = dict(k="in", cfg=icfg("zz", handler=handler, run_missing=True), body=inner, args=[{"lit": pv.i(1)}], kwargs=[])
         Pp = opdef(dict(k="try", c=seq([probe], {"k": "ret", "e": {"var": 0}}), h={"k": "ret", "e": {"lit": pv.s("caught")}}))
         cases.append((P, [Pp, Pp], dict(kind="in", alias="zz", expect=("val", pv.i(10), True))))
+    # (c2, round 7) run-original wins over the substitute ALSO when the original ends in a missing-key error of its own: the
+    # opted-in original (run_missing AND a substitute value) makes a further intercepted call that is absent from the recording
+    # and has no policy (nested input / output with the default fail flag / input reached after a recorded one) - the outcome of
+    # the outer call is the outcome of its original, i.e. that missing-key error, never the substitute
+    k = 0
+    for vm in ({"kind": "lit", "v": pv.i(5)}, {"kind": "lit", "v": pv.i(0)}, {"kind": "lit", "v": pv.s("")}, {"kind": "lit", "v": pv.lst([])},
+               {"kind": "call"}, {"kind": "none"}):
+        for shape in ("in", "out", "in-after-present"):
+            handler = ["none", "wrap"][k % 2]
+            k += 1
+            P = opdef(seq([in_site("a0", pv.i(1), pv.i(10), handler=handler), out_site("o0", pv.i(5), pv.i(20))],
+                          {"k": "ret", "e": {"lit": pv.s("done")}}))
+            if shape == "in":
+                inner = seq([in_site("qq", pv.i(1), pv.i(99), handler=handler)], {"k": "ret", "e": {"var": 1}})
+            elif shape == "out":
+                inner = seq([out_site("o0", pv.i(5), pv.i(98)), out_site("o0", pv.i(6), pv.i(97))], {"k": "ret", "e": {"var": 2}})
+            else:
+                inner = seq([in_site("a0", pv.i(1), pv.i(99), handler=handler), in_site("a0", pv.i(2), pv.i(96), handler=handler)],
+                            {"k": "ret", "e": {"var": 2}})
+            probe = dict(k="in", cfg=icfg("zz", handler=handler, run_missing=True, vmiss=vm), body=inner, args=[{"lit": pv.i(1)}], kwargs=[])
+            Pp = opdef(dict(k="try", c=seq([probe], {"k": "ret", "e": {"var": 0}}), h={"k": "ret", "e": {"lit": pv.s("caught")}}))
+            cases.append((P, [Pp, Pp], dict(kind="in", alias="zz", expect=("exn", "KeyMissing", True), c2=shape)))
     # (e) the replayed program reaches intercepted functions from a worker thread (started and joined by the operation):
     # answered from the recording there too, no body runs, outputs are captured
     for handler in ("none", "wrap"):
@@ -416,6 +440,8 @@ def features(case):  # noqa: F811
         fs = _h_features(case)
         if (case.get("probe") or {}).get("alias") == "cfg":
             fs.add("probe:absent-call-differs-from-a-recorded-one-in-argument-type-only")
+        if (case.get("probe") or {}).get("c2"):
+            fs.add("probe:opted-in-original-ends-in-a-nested-missing-key-error(%s)" % case["probe"]["c2"])
         return fs
     return {"replay-nested-in-a-recorded-operation", "cassette:" + case["cassette"], "nested:endpoint-input-before=%s" % bool(case.get("pre")),
             "nested:endpoint-output-after=%s" % bool(case.get("post")),
@@ -443,7 +469,9 @@ MANIFEST = dict(
          "function, recorded exceptions, output handler failing on what replayed code sends), replayed 1-3 times with recording "
          "enabled and disabled, spy cassette, serialized store compared before/after; plus random program pairs. Round 6: absent "
          "calls that are type twins of a recorded call (model + direct); a replay nested in a recorded operation answers from the "
-         "played recording, runs no body, only fetches, and leaves the ACTIVE recording without any entry of its own (direct only).",
+         "played recording, runs no body, only fetches, and leaves the ACTIVE recording without any entry of its own (direct only). "
+         "Round 7: run-original wins over the substitute also when the original itself ends in a missing-key error of a nested "
+         "interception (18 constructed pairs; model + direct).",
     note="Trusted: Coq kernel + vm_compute, hand-written model, correspondence harness, by-construction expectations. A recorded "
          "exception of type RecordingKeyError is outside the domain (indistinguishable from a missing key).",
     technique="Coq proof (structural induction + case analysis of the decorator in playback mode = declarative policy) + "
